@@ -434,6 +434,9 @@ type CaseB struct {
 	Procs       int   `json:"gomaxprocs"`
 	FetchPar    bool  `json:"fetch_in_parallel"`
 	PollDelayMs int   `json:"pollers_start_after_ms,omitempty"`
+	// SlowBodyMs > 0: client 0 sends half of a 2000-byte body, pauses that long and sends the rest; whoever fetches its
+	// request is kept waiting meanwhile (the pollers go on polling)
+	SlowBodyMs int `json:"client0_body_pause_ms,omitempty"`
 }
 
 func genCaseB(t *rapid.T) CaseB {
@@ -441,6 +444,10 @@ func genCaseB(t *rapid.T) CaseB {
 		// many clients queue up while nobody polls (agent restarting or backing off), then the pollers start
 		return CaseB{Pollers: rapid.IntRange(1, 4).Draw(t, "bpollers"), Clients: rapid.SampledFrom([]int{99, 100, 101, 130, 250}).Draw(t, "bclients"),
 			GapsMs: []int{0}, PollGap: []int{0}, Procs: rapid.SampledFrom([]int{1, 4, 16}).Draw(t, "bprocs"), FetchPar: true, PollDelayMs: 300}
+	}
+	if rapid.IntRange(0, 59).Draw(t, "slowBody") == 17 {
+		return CaseB{Pollers: rapid.IntRange(2, 4).Draw(t, "spollers"), Clients: rapid.IntRange(1, 6).Draw(t, "sclients"), GapsMs: []int{0, 5}, PollGap: []int{0, 1},
+			Procs: rapid.SampledFrom([]int{1, 4}).Draw(t, "sprocs"), FetchPar: true, SlowBodyMs: rapid.SampledFrom([]int{11000, 12500}).Draw(t, "slowMs")}
 	}
 	return CaseB{
 		Pollers:  rapid.IntRange(1, 16).Draw(t, "pollers"),
@@ -526,8 +533,18 @@ func runCaseB(t vh.TB, c *CaseB) vh.Outcome {
 			}
 			time.Sleep(time.Duration(d) * time.Millisecond)
 			tok := fmt.Sprintf("c04b-%d-%d", run, i)
-			req := fmt.Sprintf("POST /b/%s HTTP/1.1\r\nHost: c04.example\r\n%s: %s\r\nContent-Length: %d\r\n\r\n%s", tok, vh.TokenHeader, tok, len(tok), tok)
-			r, err := vh.RawRoundTrip(s.addr, []byte(req), "POST", 40*time.Second)
+			body := tok
+			if c.SlowBodyMs > 0 && i == 0 {
+				body = tok + strings.Repeat(".", 2000-len(tok))
+			}
+			req := fmt.Sprintf("POST /b/%s HTTP/1.1\r\nHost: c04.example\r\n%s: %s\r\nContent-Length: %d\r\n\r\n%s", tok, vh.TokenHeader, tok, len(body), body)
+			var r *vh.RawResponse
+			var err error
+			if c.SlowBodyMs > 0 && i == 0 {
+				r, err = vh.RawRoundTripPaced(s.addr, []byte(req), len(req)-1000, time.Duration(c.SlowBodyMs)*time.Millisecond, "POST", 60*time.Second)
+			} else {
+				r, err = vh.RawRoundTrip(s.addr, []byte(req), "POST", 40*time.Second)
+			}
 			results[i] = cres{r, err}
 		}()
 	}
@@ -635,7 +652,7 @@ func runCaseB(t vh.TB, c *CaseB) vh.Outcome {
 		body, _ := io.ReadAll(inner.Body)
 		fmu.Lock()
 		toks[id] = tok
-		if string(body) != tok {
+		if string(body) != tok && !(c.SlowBodyMs > 0 && len(body) == 2000 && strings.HasPrefix(string(body), tok+".")) {
 			ferr = fmt.Errorf("fetched request %s carries token %q but body %q", id, tok, body)
 		}
 		fmu.Unlock()
@@ -675,6 +692,20 @@ func runCaseB(t vh.TB, c *CaseB) vh.Outcome {
 	cwg.Wait()
 	cancel()
 	pwg.Wait()
+	if c.SlowBodyMs > 0 {
+		o.Classes = append(o.Classes, "client-uploads-its-body-slower-than-10s")
+	}
+	// the pollers went on polling while the requests were fetched and answered: still no ID twice
+	mu.Lock()
+	all := append([]string(nil), got...)
+	mu.Unlock()
+	sort.Strings(all)
+	for i := 1; i < len(all); i++ {
+		if all[i] == all[i-1] {
+			o.Err = fmt.Errorf("request ID %s was handed to more than one pending-list response (%d pollers, %d clients; the second time while the requests were being fetched and answered, client 0 pausing %d ms inside its body)", all[i], c.Pollers, c.Clients, c.SlowBodyMs)
+			return o
+		}
+	}
 	for i, r := range results {
 		tok := fmt.Sprintf("c04b-%d-%d", run, i)
 		if _, ok := seenTok[tok]; !ok {
